@@ -133,7 +133,7 @@ Resolve(s) ==
 
 EmptyTx == [put |-> EmptyF, del |-> {}, oput |-> {}, odel |-> {}]
 OffFrame == [at |-> 0, pc |-> "off", tx |-> EmptyTx, list |-> <<>>, fl |-> <<>>, ll |-> <<>>,
-             tc |-> <<>>, dirty |-> FALSE]
+             tc |-> <<>>, ov |-> <<>>, dirty |-> FALSE]
 Frame(n, pc, list) == [OffFrame EXCEPT !.at = n, !.pc = pc, !.list = list]
 Idle == [type |-> "idle", g |-> 0, opt |-> "plain", gw |-> OffFrame, rm |-> OffFrame,
          peers |-> {}, fdone |-> FALSE, ret |-> <<>>, m0 |-> {}, stim |-> <<>>, rest |-> <<>>,
@@ -274,8 +274,8 @@ CValidate ==
 CExpand ==
   /\ Busy /\ A.pc = "x"
   /\ LET L == A.list
-         need(c) == c.calc /\ c.key = NoKey /\
-                    (Dev_CalcIndexTwice \/ ~\E j \in 1..Len(L) : L[j].name = TimeName(c.name) /\ L[j].isidx)
+         \* as written the handler that serves a peer's request appends again
+         need(c) == c.calc /\ c.key = NoKey /\ (Dev_CalcIndexTwice \/ ~RmOn)
          cs == SelectSeq(L, need)
          add == [i \in 1..Len(cs) |-> IndexEntry(cs[i])]
      IN rq' = SetA([A EXCEPT !.pc = AfterX, !.list = L \o add])
@@ -319,12 +319,25 @@ Overwrite(L, T) ==
       ex == SortKeys({k \in DOMAIN V : \E i \in 1..Len(L) : Hit(A.at, V, k, L[i].name)})
       dupL == \E i, j \in 1..Len(L) : i < j /\ L[i].name = L[j].name   \* (doubled auto index)
   IN OvFold(V, L, <<>>, ex) @@ [amb |-> DupNames(V, Rng(ex)) \/ dupL]
-\* engine side of deleteOverwritten run on node `at`: [ok, eng] over all nodes
+\* engine side of deleteOverwritten run on node `at` for the overwritten keys `del`.
+\* As written: the local engine only, whatever the keys' leaseholders. Otherwise: keys of
+\* another leaseholder go through deleteRemote (that node's handler commits metadata,
+\* ontology and engine at once), local keys are removed from the local engine.
 OvEngine(at, del) ==
   LET tgt(n) == IF Dev_OverwriteLocalEngine THEN (IF n = at THEN del ELSE <<>>)
                 ELSE SelectSeq(del, LAMBDA k : k.l = n)
       r == [n \in Node |-> EngDelete(engine[n], tgt(n))]
-  IN [ok |-> \A n \in Node : r[n].ok, eng |-> [n \in Node |-> r[n].e]]
+      away == IF Dev_OverwriteLocalEngine THEN {} ELSE {k \in Rng(del) : k.l \notin {0, at}}
+  IN [ok |-> \A n \in Node : r[n].ok, eng |-> [n \in Node |-> r[n].e], away |-> away]
+OvEngineStep(f, next, amb) ==
+  LET r == OvEngine(f.at, f.ov)
+      changed == r.eng # engine
+  IN /\ engine' = r.eng
+     /\ IF r.ok THEN /\ meta' = Without(meta, r.away) /\ onto' = onto \ r.away
+                     /\ rq' = [SetA([f EXCEPT !.pc = next, !.dirty = @ \/ changed, !.ov = <<>>])
+                                  EXCEPT !.amb = @ \/ amb]
+                     /\ UNCHANGED <<last, nreq>>
+        ELSE /\ CanFail(Dirty \/ changed) /\ Abort("engine-delete") /\ UNCHANGED <<meta, onto>>
 \* common body of steps f1 / l1 on the sub-list `which` ("fl" | "ll")
 COverwrite(pc, which, next, skip) ==
   /\ Busy /\ A.pc = pc
@@ -332,20 +345,15 @@ COverwrite(pc, which, next, skip) ==
      IF L = <<>> THEN Goto(skip) /\ UNCHANGED <<ctr, meta, engine, onto, everUsed, fresh, gone, ixn, keyOf, stim, last, nreq, nrestart>>
      ELSE IF rq.opt # "overwrite" THEN Goto(next) /\ UNCHANGED <<ctr, meta, engine, onto, everUsed, fresh, gone, ixn, keyOf, stim, last, nreq, nrestart>>
      ELSE LET o == Overwrite(L, A.tx)
-              r == OvEngine(A.at, o.del)
-              changed == r.eng # engine
-              f == [A EXCEPT !.pc = next, !.dirty = @ \/ changed,
+              f == [A EXCEPT !.ov = o.del,
                              !.tx = [TxDel(@, Rng(o.del)) EXCEPT
                                        !.odel = @ \cup (IF Dev_OverwriteLocalEngine THEN {} ELSE Rng(o.del))],
                              !.fl = IF which = "fl" THEN o.l ELSE @,
                              !.ll = IF which = "ll" THEN o.l ELSE @]
-          IN /\ engine' = r.eng
-             /\ IF r.ok THEN rq' = [SetA(f) EXCEPT !.amb = @ \/ o.amb] /\ UNCHANGED <<last, nreq>>
-                ELSE CanFail(Dirty \/ changed) /\ Abort("engine-delete")
-             /\ UNCHANGED <<ctr, meta, onto, everUsed, fresh, gone, ixn, keyOf, stim, nrestart>>
+          IN /\ OvEngineStep(f, next, o.amb)     \* the engine side runs right away
+             /\ UNCHANGED <<ctr, everUsed, fresh, gone, ixn, keyOf, stim, nrestart>>
 CFreeOverwrite == COverwrite("f1", "fl", "f2", "l1")
 CLocalOverwrite == COverwrite("l1", "ll", "l2", "o")
-
 \* retrieveExistingAndAssignKeys
 RECURSIVE RetFold(_, _, _, _, _)
 RetFold(V, names, L, dec, ex) ==
@@ -424,6 +432,10 @@ COnto ==
   /\ UNCHANGED <<ctr, meta, engine, onto, everUsed, fresh, gone, ixn, keyOf, stim, last, nreq, nrestart>>
 
 \* ---- delete -----------------------------------------------------------------
+Mine(f) == SelectSeq(f.list, LAMBDA e : e.key.l = f.at)
+Free(f) == SelectSeq(f.list, LAMBDA e : e.key.l = 0)
+\* (renames of free channels: as written in the gateway's own transaction; otherwise sent
+\*  to the bootstrapper like free creates)
 DRoute ==
   /\ Busy /\ ~RmOn /\ rq.gw.pc \in {"dr", "nr"}
   /\ IF rq.peers # {}
@@ -431,10 +443,11 @@ DRoute ==
             /\ rq' = [rq EXCEPT !.peers = @ \ {n},
                         !.rm = Frame(n, IF rq.type = "delete" THEN "dm" ELSE "nv",
                                      SelectSeq(rq.gw.list, LAMBDA e : e.key.l = n))]
-     ELSE rq' = [rq EXCEPT !.gw.pc = IF rq.type = "delete" THEN "df" ELSE "nf"]
+     ELSE IF /\ rq.type = "rename" /\ ~Dev_FreeRenameStaleIndex /\ rq.g # Boot /\ ~rq.fdone
+             /\ Free(rq.gw) # <<>>
+          THEN rq' = [rq EXCEPT !.fdone = TRUE, !.rm = Frame(Boot, "nv", Free(rq.gw))]
+          ELSE rq' = [rq EXCEPT !.gw.pc = IF rq.type = "delete" THEN "df" ELSE "nf"]
   /\ UNCHANGED <<ctr, meta, engine, onto, everUsed, fresh, gone, ixn, keyOf, stim, last, nreq, nrestart>>
-Mine(f) == SelectSeq(f.list, LAMBDA e : e.key.l = f.at)
-Free(f) == SelectSeq(f.list, LAMBDA e : e.key.l = 0)
 DFree == /\ Busy /\ A.pc = "df"
          /\ rq' = SetA([A EXCEPT !.pc = "dm", !.tx = TxDel(@, KeysOf(Free(A)))])
          /\ UNCHANGED <<ctr, meta, engine, onto, everUsed, fresh, gone, ixn, keyOf, stim, last, nreq, nrestart>>
@@ -465,7 +478,7 @@ NValidate ==
      IN IF dup \/ conflict
         THEN /\ CanFail(Dirty) /\ Abort("name")
              /\ UNCHANGED <<ctr, meta, engine, onto, everUsed, fresh, gone, ixn, keyOf, stim, nrestart>>
-        ELSE /\ rq' = [SetA([A EXCEPT !.pc = IF RmOn THEN "nm" ELSE "nr"]) EXCEPT !.amb = @ \/ unsure]
+        ELSE /\ rq' = [SetA([A EXCEPT !.pc = IF RmOn THEN "nf" ELSE "nr"]) EXCEPT !.amb = @ \/ unsure]
              /\ UNCHANGED <<ctr, meta, engine, onto, everUsed, fresh, gone, ixn, keyOf, stim, last, nreq, nrestart>>
 \* table.NewUpdate().Where(MatchKeys(keys...)): all keys must exist
 NUpdate(pc, sel(_), next) ==
@@ -479,7 +492,8 @@ NUpdate(pc, sel(_), next) ==
                                       [V[k] EXCEPT !.name = l[CHOOSE i \in 1..Len(l) : l[i].key = k].name]] @@ @])
           /\ UNCHANGED <<last, nreq>>
   /\ UNCHANGED <<ctr, meta, engine, onto, everUsed, fresh, gone, ixn, keyOf, stim, nrestart>>
-NFree == NUpdate("nf", Free, "nm")
+FreeHere(f) == IF ~RmOn /\ rq.fdone THEN <<>> ELSE Free(f)
+NFree == NUpdate("nf", FreeHere, "nm")
 NMeta == NUpdate("nm", Mine, "ne")
 NEngine ==
   /\ Busy /\ A.pc = "ne"
